@@ -511,6 +511,42 @@ _amend("C19",
        note_replace=[("; GridFlow layout: bounded only", "")])
 
 
+# ---- fourth wave
+
+_amend("C01",
+       "Fourth wave: Pile / Columns / GridFlow / Frame sizing() per documented rule, Pile.pack / Columns.pack, the fixed-size geometry (Pile._get_fixed_rows_sizes, Columns._get_fixed_column_sizes, "
+       "get_column_sizes for () and for sized cases -- the latter now verified against exactly the facts the callers' contract states), Pile.render(()) == pack(()); ListBox.render / calculate_visible "
+       "(C07's contracts) also run here; Edit.render / rows / get_cursor_coords (C10's contracts).",
+       note_replace=[("Nine known findings (degenerate zero-width / zero-weight cases).", "Twenty-two known findings: thirteen degenerate zero-width / zero-weight / clipped cases seen by the bounded stand-in and nine classes in which sizing() over-reports a mode or the wrong error type escapes, found by the deductive contracts (each obligation is proved to fail ONLY inside the class its finding names).")])
+_amend("C05",
+       "Screen.get_input (the synchronous path without an event loop) is under contract: pending codes are never left without a completion wait, an expired completion wait is followed by decoding the "
+       "pending codes as they stand, every decoded event and raw code is returned (also while throttling resizes*); read_cursor_position accepts ASCII digits only (character predicates modelled "
+       "exactly as CPython answers for code points 0..255).")
+_amend("C10",
+       "Edit geometry (str texts): get_line_translation (the cursor's line shifted to bring it to the nearest edge), position_coords, get_cursor_coords (the cell of the character at the cursor "
+       "offset, pulled into the widget), render (cursor of the rendering == reported cursor when focused, none otherwise), get_pref_col, move_cursor_to_coords (position on that line for the column; a "
+       "line outside the edit text refused with nothing changed), mouse_event, and keypress for up / down / home / end; move_prev_char / move_next_char / decode_one (C11's contracts) also run here.",
+       note_replace=[("Two known findings.", "A cursor offset held by no segment (C10-KF1's zero-width-only row, text cut by 'ellipsis'), columns in no character cell, bytes widgets: bounded only. Two known findings.")])
+_amend("C12",
+       "The tty signal handlers are under contract: signal_init / signal_restore put back exactly what was installed before (also a falsy handler object), _sigtstp_handler stops the screen (terminal in "
+       "its initial modes) before the process is suspended, _sigcont_handler restores, chains to the application's handler, restarts the screen and announces a resize; both SIGWINCH handlers.")
+_amend("C13",
+       "Asyncio and tornado alarm / remove_alarm / watch_file / remove_watch_file and the tornado closures (a removed alarm or watch is withdrawn from the scheduler once, removal reports success exactly "
+       "once, every callback handed to the scheduler is wrapped so that idle callbacks follow and exceptions stop the loop); the synchronous half of TrioEventLoop (what is queued / cancelled).",
+       note_replace=[("Seven known findings", "Trio's coroutines (_alarm_task, _watch_task, _main_task) are outside the verifier. Seven known findings")])
+_amend("C14",
+       "connect / disconnect / disconnect_by_key keep the signal dict and the handler list OBJECTS (identity clauses: a handler appended during a concurrent auto-removal cannot land on an orphaned list).")
+_amend("C16",
+       "The clients: Pile / Columns / GridFlow contents callbacks are verified under the stale focus index the list really passes (they may not read the focus), and every mutator of SimpleFocusListWalker / "
+       "SimpleListWalker signals 'modified' exactly once after the list operation and never on failure; the bounded stand-in runs every op x every index / slice on the real containers and walkers too.")
+_amend("C17",
+       "BaseScreen.register_palette_entry / register_palette: the entry recorded for each colour depth is built from exactly the documented source fields (only None in a high-colour field means 'use the "
+       "16-colour value'), aliases copy the very entry, one update signal per entry.")
+_amend("C20",
+       "shards_trim_rows (up to 3 spelled-out shards) and shards_trim_top (two shards: views that hang over from the dropped shard move down by the full trim) over the real shard lists; the bounded "
+       "stand-in scrolls structured content (columns split into rows differently, nested scrollables) cell-exactly incl. attributes.")
+
+
 PENDING = "contracts for this property are not built yet in this commit (see DESIGN.md §6 for the plan); no check is claimed"
 
 
